@@ -250,8 +250,9 @@ fn battery<Tx: ExecutableTransaction>(o: &Opts, out: &mut Out, run: u64, vm: &mu
         let n = if thorough { 8 } else { 3 };
         for _ in 0..n {
             let s = loop { let s = some_sel(rng); if indexed(s) { break s; } };
-            // $cgas as index: leave a small value after (or before) the charge
-            let gas = if rb as usize == RCGAS || rb as usize == RGGAS { gtf_cost + rng.gen_range(0..4) } else { full_gas };
+            // $cgas / $ggas as index: whether the register is read before or after the charge is not specified; the value is
+            // chosen so that both readings address the same kind of thing (an index far beyond every list)
+            let gas = if rb as usize == RCGAS || rb as usize == RGGAS { gtf_cost + (1 << 20) + rng.gen_range(0..4) } else { full_gas };
             let mut sets = base_sets(rng, 0, pc0, gas);
             sets[0] = (RA_ as usize, rng.gen_range(0..4));
             sets.push((0x3f, rng.gen_range(0..5)));
@@ -425,7 +426,7 @@ where
 
 fn pred(o: &Opts, out: &mut Out, run: &mut u64) {
     let mut rng = o.rng(501);
-    let n = if o.thorough() { 150 } else { 15 };
+    let n = if o.thorough() { 150 } else { 10 };
     let (code, _) = program();
     for k in 0..n as u64 {
         let params = small_params(&mut rng, k);
@@ -499,7 +500,7 @@ fn valid_script(rng: &mut StdRng, k: u64, params: &ConsensusParameters, code: Ve
 
 fn script_sessions(o: &Opts, out: &mut Out, run: &mut u64) {
     let mut rng = o.rng(502);
-    let n = if o.thorough() { 60 } else { 6 };
+    let n = if o.thorough() { 60 } else { 4 };
     let (code, _) = program();
     for k in 0..n as u64 {
         let params = small_params(&mut rng, k);
@@ -528,7 +529,7 @@ fn script_sessions(o: &Opts, out: &mut Out, run: &mut u64) {
 /// until the wanted depth is reached, then the instructions are executed there
 fn call_sessions(o: &Opts, out: &mut Out, run: &mut u64) {
     let mut rng = o.rng(503);
-    let n = if o.thorough() { 24 } else { 4 };
+    let n = if o.thorough() { 24 } else { 2 };
     let (code, _) = program();
     for k in 0..n as u64 {
         let want_depth = 1 + (k % 2) as usize;
@@ -595,7 +596,7 @@ fn record(o: &Opts) -> Res<()> {
 // ---------------------------------------------------------------------------------------------------------------
 // Leg R: cases generated by TLC, performed on the real interpreter (predicate context) and compared
 // ---------------------------------------------------------------------------------------------------------------
-fn replay_on<Tx>(tx: Tx, pidx: usize, params: &ConsensusParameters, cases: &[Value], out: &mut Out, stats: &mut (u64, u64))
+fn replay_on<Tx>(tx: Tx, pidx: usize, params: &ConsensusParameters, cases: &[Value], out: &mut Out, stats: &mut (u64, u64), line: usize)
 where
     Tx: ExecutableTransaction + Clone + fuel_tx::field::Inputs,
     Transaction: From<Tx>,
@@ -636,8 +637,8 @@ where
         });
         if !matches {
             stats.1 += 1;
-            out.ev(json!({"mismatch": format!("gtf/{}/{}", c["name"].as_str().unwrap_or("?"), c["kind"].as_str().unwrap_or("?")),
-                          "expected": c["outs"], "observed": obs, "sel": sel, "b": b.to_string(), "txoff": txoff, "case": c["id"]}));
+            out.ev(json!({"mismatch": "gtf", "line": line, "name": c["name"], "expected": c["outs"], "observed": obs, "sel": sel, "b": b.to_string(),
+                          "txoff": txoff, "case": c["id"]}));
         }
     }
 }
@@ -648,16 +649,16 @@ fn replay(o: &Opts) -> Res<()> {
     let mut stats = (0u64, 0u64);
     let params = ConsensusParameters::standard();
     // lines: {"tx": <abstract tx>, "pidx": n, "cases": [{sel, b, name, kind, outs: [...]}, ...]}
-    for ln in &lines {
+    for (line, ln) in lines.iter().enumerate() {
         let tx = build::transaction(&ln["tx"]);
         let pidx = ju64(ln, "pidx") as usize;
         let cases = ln["cases"].as_array().expect("cases");
         match tx {
-            Transaction::Script(t) => replay_on(t, pidx, &params, cases, &mut out, &mut stats),
-            Transaction::Create(t) => replay_on(t, pidx, &params, cases, &mut out, &mut stats),
-            Transaction::Upgrade(t) => replay_on(t, pidx, &params, cases, &mut out, &mut stats),
-            Transaction::Upload(t) => replay_on(t, pidx, &params, cases, &mut out, &mut stats),
-            Transaction::Blob(t) => replay_on(t, pidx, &params, cases, &mut out, &mut stats),
+            Transaction::Script(t) => replay_on(t, pidx, &params, cases, &mut out, &mut stats, line),
+            Transaction::Create(t) => replay_on(t, pidx, &params, cases, &mut out, &mut stats, line),
+            Transaction::Upgrade(t) => replay_on(t, pidx, &params, cases, &mut out, &mut stats, line),
+            Transaction::Upload(t) => replay_on(t, pidx, &params, cases, &mut out, &mut stats, line),
+            Transaction::Blob(t) => replay_on(t, pidx, &params, cases, &mut out, &mut stats, line),
             Transaction::Mint(_) => {}
         }
     }
